@@ -41,6 +41,15 @@ pub fn scenario_role(name: &str, strings: &[String], default_role: Option<&str>)
     }
 }
 
+/// The routing commands need no server: they are answered also while the pool is paused (nobody resumes).
+pub fn scenario_paused(name: &str, strings: &[String]) -> Scenario {
+    let mut sc = scenario_role(name, strings, None);
+    // the admin pauses before the client sends anything
+    sc.actors[0].steps.insert(1, crate::world::Step::Wait(crate::world::Cond::ActorsDone(vec![1])));
+    sc.actors.push(crate::cfg::env("admin", vec![crate::world::Step::Wait(crate::world::Cond::ActorAt(0, 1)), crate::world::Step::Admin("PAUSE".into())]));
+    sc
+}
+
 pub fn oracle(sc: &Scenario, out: &Outcome) -> Vec<Violation> {
     let log = &out.log;
     let mut vs = Vec::new();
@@ -166,6 +175,11 @@ pub fn build(tier: &str) -> SimCheck {
         scenarios.push(scenario_role(&format!("default-role-{}", r), &strings, Some(r)));
         scenarios.push(scenario_role(&format!("canonical default_role={}", r), &canon, Some(r)));
     }
+    // (1c) while the pool is paused: only commands (a forwarded statement would rightly wait for RESUME)
+    {
+        let cmds: Vec<String> = canon.iter().filter(|c| matches!(classify(c), Class::MustHandle(_))).cloned().collect();
+        scenarios.push(scenario_paused("canonical-commands-while-paused", &cmds));
+    }
     // (2) refusal keeps the old selection
     scenarios.push(scenario(
         "refusal",
@@ -211,7 +225,7 @@ pub fn build(tier: &str) -> SimCheck {
         oracle: Box::new(oracle),
         bound: 0,
         limits: Limits::default(),
-        rule: "sim: every canonical spelling (forward and reverse order, SHOW after SETs; also on pools whose default_role is primary / replica, where a fresh session must report that role), refusal sequences, and single-token perturbations of every canonical spelling sent as simple queries to the real pooler (3 shards); handled => pooler reply of shape C Z | T D C Z | E Z and nothing forwarded; otherwise the backend receives the identical text".into(),
+        rule: "sim: every canonical spelling (forward and reverse order, SHOW after SETs; also on pools whose default_role is primary / replica, where a fresh session must report that role; the commands also while the pool is paused), refusal sequences, and single-token perturbations of every canonical spelling sent as simple queries to the real pooler (3 shards); handled => pooler reply of shape C Z | T D C Z | E Z and nothing forwarded; otherwise the backend receives the identical text".into(),
         assumptions: vec!["classification by the same hand-written reference recogniser as the enum part".into()],
     }
 }
